@@ -17,7 +17,7 @@ pub fn def() -> PropDef {
     PropDef {
         id: "C09",
         level: "exploration",
-        profiles: &["checked"],
+        profiles: &["checked", "fast"],
         abort_is_violation: false,
         rule: "Part 1: well-formed documents for the streaming parsers (cnf, wcnf, gcnf, aag and aig section \
                readers, btor2; layout-rendered with comments, blank lines and split clauses) are delivered by a \
